@@ -134,6 +134,14 @@ func runC05(w *World) {
 				p = append(p, Cmd{Args: []string{"SET", "areas", ar.areaRefID(), "BOUNDS", fnum(ar.minLat), fnum(ar.minLon), fnum(ar.maxLat), fnum(ar.maxLon)}})
 			}
 		}
+		if r.Intn(2) == 0 {
+			// the names are first given another definition (all kinds detected, another area) and
+			// then re-defined: nothing of the replaced definition may keep firing
+			prev := c05Fence(r, "hw", "fleet")
+			prev.detect, prev.accept, prev.glob, prev.whereF = nil, nil, "", ""
+			p = append(p, Cmd{Args: append([]string{"SETHOOK", "hw", "http://hook0.sim:80/cb"}, prev.args()...)})
+			p = append(p, Cmd{Args: append([]string{"SETCHAN", "hc"}, prev.args()...)})
+		}
 		p = append(p, Cmd{Args: append([]string{"SETHOOK", "hw", "http://hook0.sim:80/cb"}, fence.args()...), Tag: "fence"})
 		p = append(p, Cmd{Args: append([]string{"SETCHAN", "hc"}, fence.args()...)})
 		for i := 1; i <= nOther; i++ {
